@@ -62,9 +62,11 @@ func c08emit(args []string) int {
 			out.Violate(sigOf("panic", fmt.Sprint(res.Panic)), fmt.Sprintf("panic %v", res.Panic), map[string]interface{}{"check": "c08", "index": idx, "program": p.Describe()})
 			continue
 		}
+		var stream, singles []byte
 		for ei, ws := range res.Writes {
 			for _, wr := range ws {
 				b := wr.P
+				stream = append(stream, wr.P...)
 				if isBinaryBuild() {
 					// the bundled decoder; a panic inside it is a finding of this check too
 					func() {
@@ -77,9 +79,29 @@ func c08emit(args []string) int {
 						b = cbor.DecodeIfBinaryToBytes(wr.P)
 					}()
 				}
+				singles = append(singles, b...)
 				put(idx, ei, b)
 				out.Count("events_recorded", 1)
 			}
+		}
+		if isBinaryBuild() && len(stream) > 0 {
+			// a log file is the concatenation of the events: decoding it as one stream must give the lines the
+			// events give one by one (no decoder state may leak from one event into the next)
+			var whole bytes.Buffer
+			var derr error
+			func() {
+				defer func() {
+					if r := recover(); r != nil {
+						derr = fmt.Errorf("panic: %v", r)
+					}
+				}()
+				derr = cbor.Cbor2JsonManyObjects(bytes.NewReader(stream), &whole)
+			}()
+			if derr != nil || !bytes.Equal(whole.Bytes(), singles) {
+				out.Violate("stream-decode-differs", fmt.Sprintf("decoding the program's %d-byte binary log as one stream gives (err=%v) %q, decoding its events one by one gives %q", len(stream), derr, clipb(whole.Bytes()), clipb(singles)),
+					map[string]interface{}{"check": "c08", "index": idx, "program": p.Describe()})
+			}
+			out.Count("programs_decoded_as_one_stream", 1)
 		}
 	}
 	w.Flush()
